@@ -818,6 +818,18 @@ def job_lossless(seed, tier):
             rec.check("C10.a.lossless." + name, ost[0] == "ok" and S.normalise_utxo(ost[1]) == S.normalise_utxo(s2), dict(inp, reserialised=b64(out)),
                       "records lost or changed by parse -> serialize", key=(case.label, name))
             roundtrip_checks(rec, out, "reserialised " + name, case.label)
+    # degenerate shapes the library itself builds (PSBT.create): zero inputs (Bitcoin Core's createpsbt "[]" "[...]";
+    # byte 5 of the unsigned transaction is then 0x00, the position of the BIP144 marker) and zero outputs
+    from buidl.tx import Tx as _Tx, TxIn as _TxIn, TxOut as _TxOut
+    for n_in, n_out in ((0, 0), (0, 1), (0, 2), (0, 3), (1, 0), (2, 0)):
+        tins = [_TxIn(bytes([i + 1]) * 32, i) for i in range(n_in)]
+        touts = [_TxOut(1000 * (j + 1), _foreign_spk(j)) for j in range(n_out)]
+        for version, locktime in ((2, 0), (1, 0xFFFFFFFF)):
+            label = "degenerate %d-in/%d-out v%d" % (n_in, n_out, version)
+            got = outcome(lambda: PSBT.create(_Tx(version, tins, touts, locktime, network=NET)).serialize())
+            if not rec.check("C10.a.create-degenerate", got[0] == "ok", {"case": label}, "PSBT.create(...).serialize() failed: %s" % (got[1],)):
+                continue
+            roundtrip_checks(rec, got[1], "created " + label, label)
     # global xpub records: the 78-byte extended key is data, whatever its version bytes / origin path
     case = build_case(2, 2, "p2wsh", 1, 2, with_xpubs=True, id_offset=seed % 3)
     st = S.psbt_parse(case.updated)
@@ -1024,6 +1036,16 @@ def tamper_catalogue(case, st):
         out.append(("out-disguised-script-attacker-keys", mut(lambda s, t: set_change(s, t, disguised, dict(hon)))))
         bad_n = bytes([0x50 + m]) + b"".join(b"\x21" + k for k in hk) + bytes([0x50 + n + 1, 0xAE])
         out.append(("out-script-op_n-wrong", mut(lambda s, t: set_change(s, t, bad_n, dict(hon)))))
+        # the honest commands in another ORDER (OP_n moved in front of the last key / the whole tail rotated): same multiset of
+        # commands, same command count, every key re-derives -- but not an m-of-n script (CHECKMULTISIG reads a key as n)
+        if n >= 2:
+            moved = bytes([0x50 + m]) + b"".join(b"\x21" + k for k in hk[:-1]) + bytes([0x50 + n]) + b"\x21" + hk[-1] + b"\xae"
+            out.append(("out-script-commands-permuted-op_n-before-last-key", mut(lambda s, t: set_change(s, t, moved, dict(hon)))))
+        swapped = bytes([0x50 + n]) + b"".join(b"\x21" + k for k in hk) + bytes([0x50 + m, 0xAE])
+        if m != n:
+            out.append(("out-script-commands-permuted-m-and-n-exchanged", mut(lambda s, t: set_change(s, t, swapped, dict(hon)))))
+        front = b"\xae" + bytes([0x50 + m]) + b"".join(b"\x21" + k for k in hk) + bytes([0x50 + n])
+        out.append(("out-script-commands-permuted-checkmultisig-first", mut(lambda s, t: set_change(s, t, front, dict(hon)))))
         nonms = bytes([0x50 + m]) + b"".join(b"\x21" + k for k in hk) + bytes([0x50 + n, 0xAF])   # CHECKMULTISIGVERIFY
         out.append(("out-script-not-checkmultisig", mut(lambda s, t: set_change(s, t, nonms, dict(hon)))))
         # 7. a second change output (genuine): at most refused, never mis-added
